@@ -26,6 +26,7 @@ def run(ck):
     q = ck.tier == "quick"
     tids = gen.Tids()
     progs = history.programs(ck.seed, 60 if q else 1200, tids=tids)
+    progs += history.derived_programs(ck.seed, 50 if q else 1000, tids=tids)
     rng = gen.rng_for(ck.seed, "c15")
     nsched = 0
     for pname, threads in (("ProgA", "{1, 2}"), ("ProgB", "{1, 2, 3}")):
